@@ -172,3 +172,35 @@ func VerifH_C13_InspectVsScanV2() {
 	vCover("v2-unreadable-codec-rejected", idxKind == 3 && ierr != nil && scan.ok)
 	vCover("v2-missing-index-rejected", idxKind == 4 && ierr != nil && scan.ok)
 }
+
+// VerifH_C13_InspectStructuredCorruption: structure-aware corruption instead of arbitrary bytes: a
+// payload of three sections with CIDs from the collision alphabet (so that sections may repeat a
+// CID, as AllowDuplicatePuts archives do) whose data bytes are arbitrary - each section may or may
+// not hash to its CID - cut at an arbitrary position inside the last section. Inspect(true)
+// succeeds iff the hash-verifying scan does, with the same block count.
+func VerifH_C13_InspectStructuredCorruption() {
+	root := vCidID("root")
+	hdr := vHeaderV1(root)
+	secs := []vSection{
+		{c: vCidT("c1"), data: vBytes("d1", vChoose("n1", 2))},
+		{c: vCidT("c2"), data: vBytes("d2", vChoose("n2", 2))},
+		{c: vCidT("c3"), data: vBytes("d3", 1)},
+	}
+	if vChoose("repeat", 2) == 1 {
+		secs[2].c = secs[0].c // the third section repeats the first CID, with data of its own
+	}
+	payload := vPayload(hdr, secs)
+	cut := vInt("cutFromEnd")
+	vAssume(cut >= 0 && cut <= 2)
+	file := payload[:len(payload)-cut]
+	scan, _ := vScanAll(&vStream{data: file}, 4)
+	rd, err := NewReader(&vReaderAt{data: file})
+	vAssert("reader-opens", err == nil)
+	st, ierr := rd.Inspect(true)
+	vAssert("inspect-ok-iff-scan-ok", (ierr == nil) == scan.ok)
+	if ierr == nil {
+		vAssert("block-count", st.BlockCount == scan.count)
+	}
+	vCover("all-valid-with-repeat", ierr == nil && secs[2].c.Equals(secs[0].c) && vBytesEq(secs[0].data, secs[2].data))
+	vCover("corrupt-repeat-rejected", ierr != nil && secs[2].c.Equals(secs[0].c) && cut == 0)
+}
